@@ -141,6 +141,11 @@ def find_roles(v):
     only("acc", [nm for nm, x in v1.items() if x.kind == "real"])
     probe = z3.Int("role_probe")
     only("pid", [nm for nm, x in v1.items() if x.kind == "int" and z3.is_true(z3.simplify(z3.Implies(probe > 0, X.sel1(x.arr, probe) == -1)))])
+    # candidates for the child counter (coupling invariant): the integer arrays with one cell per row that are all zero when the loop is reached - as the ghost count is.
+    # (Any other integer array in the frame - an index array of the pre-processing, say - is not a candidate: the invariant could not tell it from the counter.)
+    n = v[out["dis"]].nz() if out.get("dis") in v and isinstance(v[out["dis"]], X.M2) else None
+    out["counters"] = [nm for nm, x in v1.items() if x.kind == "int" and n is not None and z3.is_true(z3.simplify(x.nz() == n))
+                       and z3.is_true(z3.simplify(X.sel1(x.arr, probe) == 0))]
     return out
 
 
@@ -149,8 +154,6 @@ def roles(v):
     r = _ROLE_CACHE.get("roles")
     if r is not None and all(r[x] in v for x in ROLES):
         return r
-    if all(x in v for x in ROLES):
-        return {x: x for x in ROLES}  # nothing was renamed
     f = find_roles(v)
     if all(f.get(x) is not None and f[x] in v for x in ROLES):
         _ROLE_CACHE["roles"] = f
@@ -175,6 +178,8 @@ class St:
         self.pid, self.acc, self.furc, self.conn, self.mask, self.dis = (v[x] for x in ("pid", "acc", "g_nk", "conn", "mask", "dis"))
         self.pos, self.perm, self.crank, self.kid, self.depth = (v[x] for x in ("g_pos", "g_perm", "g_crank", "g_kid", "g_depth"))
         self.counters = [x for nm, x in v.items() if not nm.startswith("g_") and isinstance(x, X.V1) and x.kind == "int"]
+        if rl.get("counters"):
+            self.counters = [v[nm] for nm in rl["counters"] if nm in v]
 
     FIELDS = ("pid", "acc", "furc", "conn", "mask", "dis", "pos", "perm", "crank", "kid", "depth")
 
